@@ -2,14 +2,14 @@
 (***************************************************************************)
 (* fileutils.ReadUntilSemiColon as a function on (document, position): the  *)
 (* definitions shared by the Splitter machine and the trace specification.  *)
-(* Characters: ";" , " " (blank or tab), anything else.                     *)
+(* Characters: ";" , " " (space), "\t" (tab), anything else.                *)
 (***************************************************************************)
 EXTENDS Integers, Sequences, FiniteSets, SequencesExt, TLC
 
 \* index of the last non-blank character of buffer b scanning back from its end, as the (repaired) code does:
 \* stops at 1 (the code's 0) even if that character is a blank
 RECURSIVE ScanBack(_, _)
-ScanBack(b, i) == IF i > 1 /\ b[i] = " " THEN ScanBack(b, i - 1) ELSE i
+ScanBack(b, i) == IF i > 1 /\ b[i] \in {" ", "\t"} THEN ScanBack(b, i - 1) ELSE i
 
 \* one call of ReadUntilSemiColon from line p: [buf, next, eof, idx]
 RECURSIVE ReadFrom(_, _, _, _)
